@@ -303,13 +303,31 @@ func (c *Ctx) resultValues(ret *ssa.Return, i int) []ssa.Value {
 	v := ret.Results[i]
 	if u, ok := v.(*ssa.UnOp); ok && u.Op == token.MUL {
 		if al, ok := u.X.(*ssa.Alloc); ok {
-			// named result cell: last stores that reach this return
-			var out []ssa.Value
-			for _, s := range c.cellStores(al) {
-				out = append(out, s.Val)
+			// result cell of a function with defers: the value returned is
+			// the last store to the cell before the load, in the same block
+			var last ssa.Value
+			for _, in := range ret.Block().Instrs {
+				if in == ssa.Instruction(u) {
+					break
+				}
+				if st, ok := in.(*ssa.Store); ok && st.Addr == ssa.Value(al) {
+					last = st.Val
+				}
 			}
-			if len(out) > 0 {
-				return out
+			if last != nil {
+				if phi, ok := last.(*ssa.Phi); ok {
+					v = phi
+				} else {
+					return []ssa.Value{last}
+				}
+			} else {
+				var out []ssa.Value
+				for _, s := range c.cellStores(al) {
+					out = append(out, s.Val)
+				}
+				if len(out) > 0 {
+					return out
+				}
 			}
 		}
 	}
